@@ -13,10 +13,10 @@ NumEnv(id)  == {Absent, Valid(id), Bad("nonnum"), Bad("neg"), Bad("zero"), Bad("
 NumOpt(id)  == {Absent, Valid(id), Bad("zero"), Bad("neg")}
 
 URLEnv(base) == {Absent, Src("url", ""), Src("url", "/"), Src("url", base), Src("url", base \o "/"),
-                 Bad("unparsable"), Bad("noscheme"), Bad("pathonly")}
+                 Bad("unparsable"), Bad("noscheme"), Src("pathonly", "/p")}
 URLOptHTTP  == {Absent, Bad("host"), Src("path", "/o"), Src("path", "/o/"), Src("hostpath", "/o"),
                 Src("url", ""), Src("url", "/"), Src("url", "/o"), Src("url", "/o/"), Bad("badurl")}
-URLEnvGRPC  == {Absent, Src("url", ""), Src("url", "/"), Bad("unparsable"), Bad("noscheme"), Bad("pathonly")}
+URLEnvGRPC  == {Absent, Src("url", ""), Src("url", "/"), Bad("unparsable"), Bad("noscheme"), Src("pathonly", "/p")}
 URLOptGRPC  == {Absent, Bad("host"), Src("url", ""), Bad("badurl")}
 
 HdrEnv(id) == {Absent, Valid(id), Bad("garbage"), Src("partial", id), Bad("badkey")}
